@@ -57,6 +57,9 @@ pub struct GenCfg {
     pub jump_micros: Vec<u64>,
     pub named_ids_chance: f64,
     pub invalid_chance: f64,
+    /// generate the structural corners of permission records (empty tables) and 1-2 character names
+    #[serde(default)]
+    pub codec_corners: bool,
 }
 
 impl Default for GenCfg {
@@ -81,6 +84,7 @@ impl Default for GenCfg {
             jump_micros: vec![1_000_000],
             named_ids_chance: 0.2,
             invalid_chance: 0.0,
+            codec_corners: false,
         }
     }
 }
@@ -205,7 +209,23 @@ impl Gen {
         }
     }
 
+    /// Connection 0 is the administrator's (always root): audits and snapshots go through it, so
+    /// session-changing operations are moved to another connection.
     pub fn next(&mut self, model: &Model) -> Op {
+        let mut op = self.next_raw(model);
+        let clients = self.cfg.clients;
+        let other = if clients > 1 { Some(1 + self.rng.usize_below(clients - 1)) } else { None };
+        match &mut op {
+            Op::Login { c, .. } | Op::Logout { c } | Op::LoginPat { c, .. } | Op::Disconnect { c } | Op::Connect { c } if *c == 0 => match other {
+                Some(o) => *c = o,
+                None => return Op::Ping { c: 0 },
+            },
+            _ => {}
+        }
+        op
+    }
+
+    fn next_raw(&mut self, model: &Model) -> Op {
         let m = self.cfg.mix.clone();
         let weights = [
             m.send, m.poll, m.flush, m.job_save, m.job_maintain, m.restart_clean, m.restart_flush_kill, m.restart_lose_index, m.purge, m.tick, m.jump, m.back_jump, m.store_offset, m.get_offset,
